@@ -278,6 +278,8 @@ def main(ctx):
         proof_ok, log = ctx.build_props('C07/Props.v')
         if not proof_ok:
             ctx.notes['build_log_tail'] = log[-1500:]
+        elif ctx.tier == 'thorough':
+            ctx.coqchk('C07/Props.v')
     else:
         for n in lib.theorem_names(lib.COQ / 'C07' / 'Props.v'):
             ctx.obligations.append({'name': n, 'discharged': False, 'assumptions': [],
